@@ -288,7 +288,7 @@ def build(r, pos, nl):
 POSITIONS = ["expr", "expr-multiline", "control", "module-function", "module-function-ns", "second-module-function", "for-iterable", "for-iterable-loop", "loop-body", "elif-test", "while-test", "call-expr", "tag-attr",
              "include-file-expr", "code-line", "def", "nested-def", "call-body", "block", "anon-block",
              "filter", "decorator", "relay-back", "include", "namespace-def", "inherit-base", "inherit-child"]
-PATHS = ["put_string", "file-lookup", "moddir-first", "moddir-reload", "moddir-relative", "modfile-relative"]
+PATHS = ["put_string", "file-lookup", "moddir-first", "moddir-reload", "moddir-relative", "modfile-relative", "moddir-symlink"]
 
 
 def make_lookup(spec, path, d, **kw):
@@ -308,6 +308,12 @@ def make_lookup(spec, path, d, **kw):
         ids[uri] = fp
     if path.startswith("moddir"):
         kw["module_directory"] = os.path.join(d, "mods")
+        if path == "moddir-symlink":
+            # the module directory is reached through a symbolic link (a linked cache directory)
+            real = os.path.join(d, "mods-real")
+            os.makedirs(real, exist_ok=True)
+            if not os.path.islink(os.path.join(d, "mods")):
+                os.symlink(real, os.path.join(d, "mods"))
         if path == "moddir-relative":
             # a module directory given relative to the working directory (Python makes module paths absolute itself)
             kw["module_directory"] = os.path.relpath(kw["module_directory"], os.getcwd())
